@@ -360,12 +360,11 @@ class RouteScenario(explore.Scenario):
     def canon(self, w):
         q = tuple((c, tuple((m['ti'], len(raw)) for raw, m in w.queues[c]),
                    w.partial[c]) for c in (0, 1))
-        bus = w.bw.bus
-        impl = explore.impl_digest(
-            {n: [getattr(p, 'uniqueName', None) for p in ql]
-             for n, ql in bus.busNames.items()},
-            sorted(bus.clients), len(bus.router._rules)
-            if hasattr(bus.router, '_rules') else None)
+        # everything the bus and its connections hold (rule ids, per-
+        # connection rule and name bookkeeping, buffers): two worlds are
+        # merged only if the library itself cannot tell them apart
+        impl = explore.impl_digest(w.bw.bus, [p.proto for p in w.peers],
+                                   ignore=('uuid', 'transport', 'factory', '_endian'))
         return (tuple(w.alive), w.names.key(),
                 tuple(sorted((c, tuple(sorted(r)))
                              for c, r in w.rules.items())), q, impl)
@@ -478,18 +477,23 @@ def run(ctx):
     if ctx.quick:
         explore.explore(ctx, RouteScenario,
                         {'templates': alln, 'max_queue': 1, 'senders': [0]},
-                        max_depth=4, max_dev=1,
-                        label='routing: 1 queued message, depth 4')
+                        max_depth=5, max_dev=1,
+                        label='routing: 1 queued message, depth 5')
         explore.explore(ctx, RouteScenario,
                         {'templates': [0, 1, 4, 5, 11], 'max_queue': 2,
                          'senders': [0, 1]},
                         max_depth=4, max_dev=1,
                         label='routing: 2 senders, 2 queued, depth 4')
         explore.explore(ctx, RouteScenario,
+                        {'templates': [5, 6, 10], 'max_queue': 1,
+                         'senders': [0]},
+                        max_depth=7, max_dev=0,
+                        label='broadcasts and match rules, depth 7')
+        explore.explore(ctx, RouteScenario,
                         {'templates': [1, 3], 'max_queue': 1, 'senders': [0],
                          'waiters': True},
-                        max_depth=5, max_dev=0,
-                        label='routing to a queued-for name, depth 5')
+                        max_depth=6, max_dev=0,
+                        label='routing to a queued-for name, depth 6')
         explore.explore(ctx, NameScenario, {}, max_depth=5,
                         label='unique names, depth 5')
     else:
